@@ -3,7 +3,8 @@
 (* sequence of successful commits, each a write set under ONE version.  A trace recorded from the *)
 (* real DB (harness/cmd/txn: several transactions driven by one goroutine) is accepted iff         *)
 (*  C03 (i)   every Get returns the transaction's own pending write, else the newest commit with   *)
-(*            version <= its read timestamp (a tombstone / nothing reads as NOTFOUND);            *)
+(*            version <= its read timestamp (a tombstone / nothing reads as NOTFOUND); a Scan      *)
+(*            (Txn.NewIterator run to the end) yields exactly the live keys of that view;          *)
 (*      (ii)  Commit answers "ok" for a read-write transaction only if no other commit with a      *)
 (*            version above its read timestamp wrote a key it read ("conflict" is always           *)
 (*            acceptable: fingerprint collisions may only add conflicts);                          *)
@@ -63,6 +64,19 @@ Get == /\ IsEvent("Get") /\ ev.t \in DOMAIN tx
              /\ tx' = IF own \/ ~x.upd THEN tx ELSE Upd(tx, ev.t, [x EXCEPT !.reads = @ \cup {ev.k}])
        /\ UNCHANGED <<clog, maxrts>>
 
+\* a full forward iteration inside the transaction: exactly the live keys of (snapshot overlaid with own
+\* pending writes) with their values (the ORDER is C06's business); the keys it yielded count as read
+KnownKeys(x) == (DOMAIN x.w) \cup UNION {DOMAIN clog[i].w : i \in 1..Len(clog)}
+Seen(x, k) == IF k \in DOMAIN x.w THEN (IF x.w[k] = TOMB THEN NOTFOUND ELSE x.w[k]) ELSE Visible(k, x.rts)
+Scan == /\ IsEvent("Scan") /\ ev.t \in DOMAIN tx
+        /\ LET x    == tx[ev.t]
+               want == {[k |-> k, v |-> Seen(x, k)] : k \in {y \in KnownKeys(x) : Seen(x, y) # NOTFOUND}}
+               got  == {[k |-> ev.res[i].k, v |-> ev.res[i].v] : i \in 1..Len(ev.res)}
+           IN /\ Require(got = want /\ Len(ev.res) = Cardinality(want), ToJson(want))
+              /\ tx' = IF ~x.upd THEN tx
+                       ELSE Upd(tx, ev.t, [x EXCEPT !.reads = @ \cup ({r.k : r \in got} \ DOMAIN x.w)])
+        /\ UNCHANGED <<clog, maxrts>>
+
 \* a write that reported an error is not part of the transaction
 Write(val) == /\ ev.t \in DOMAIN tx
               /\ tx' = IF ev.ok THEN Upd(tx, ev.t, [tx[ev.t] EXCEPT !.w = Upd(@, ev.k, val)]) ELSE tx
@@ -105,7 +119,7 @@ Dump == /\ IsEvent("Dump")
         /\ Require(Newest \subseteq Stored, "the newest committed version of every key is stored")
         /\ UNCHANGED <<clog, tx, maxrts>>
 
-Next == Reset \/ Begin \/ Get \/ Set \/ Del \/ Commit \/ Discard \/ Maint \/ Dump
+Next == Reset \/ Begin \/ Get \/ Scan \/ Set \/ Del \/ Commit \/ Discard \/ Maint \/ Dump
 Spec == Init /\ [][Next]_vars
 
 TraceAccepted ==
